@@ -231,8 +231,8 @@ func runC13(rep *Report, tier string, seed int64) {
 	rep.Rule = "hub-and-spoke: one registry linked to k peers with distinct names (message API, 3 serializer configurations); identity: the id a hub handler reads = the id that remote is enumerated under = an announced id; routing: each enumerated remote reaches a different peer; " +
 		"isolation: with a gated call in flight in both directions and echo traffic on every link, one random link is failed (context cancelled / transport closed / peer's context cancelled) at a random moment: every sibling call completes normally. distinct = (k, failure mode, codec, seed)"
 	rng := rand.New(rand.NewSource(seed))
-	ks := []int{2, 4}
-	reps := 1
+	ks := []int{2, 4, 8}
+	reps := 3
 	if tier == "thorough" {
 		ks = []int{2, 3, 8, 16, 32}
 		reps = 6
